@@ -242,7 +242,7 @@ def run(ctx):
     # alternate with the history index; placements rotate with the history index
     jobs = [("c08", ["--mode", "gen", "--in", h, "--vt", "both" if i == 0 else "alternate"], "gen%d.ndjson" % i, may_die)
             for i, (h, _) in enumerate(hists)]
-    nrand, ops = (240, 120) if q else (3000, 300)
+    nrand, ops = (600, 120) if q else (3000, 300)
     per = 120 if q else 188
     for i in range((nrand + per - 1) // per):
         jobs.append(("c08", ["--mode", "random", "--n", per, "--ops", ops, "--stream", i], "rand%02d.ndjson" % i, may_die))
